@@ -15,6 +15,13 @@ Proof. reflexivity. Qed.
 Lemma sig_len_eq : Z.to_nat crypto_SignatureLenBLSBLS12381 = Z.to_nat C_G1_SER_BYTES.
 Proof. reflexivity. Qed.
 
+Lemma enc1_inj (P Q : E1) : enc1 P = enc1 Q -> P = Q.
+Proof.
+  intro H. assert (X : Some P = Some Q).
+  { transitivity (dec1 (enc1 P)); [symmetry; apply dec1_enc1|]. rewrite H. apply dec1_enc1. }
+  congruence.
+Qed.
+
 Definition good_hasher : hasher := HSize crypto_expandMsgOutput.
 
 Lemma check_good : check_hasher good_hasher = None.
